@@ -406,6 +406,41 @@ func procNames(p gdbi.Pipeline) []string {
 	return out
 }
 
+// expandIDs replaces the id "@1" of a V(ids) start by the ids of the vertices of class 1 of
+// PipeAbs.tla: the centre of a star, the head of a chain, the left side of a bipartite graph.
+func expandIDs(gspec map[string]interface{}, prog []interface{}) []interface{} {
+	if len(prog) == 0 {
+		return prog
+	}
+	st, _ := prog[0].(map[string]interface{})
+	ids, _ := st["ids"].([]interface{})
+	if len(ids) != 1 || ids[0] != "@1" {
+		return prog
+	}
+	real := []interface{}{}
+	switch gspec["shape"] {
+	case "star":
+		real = append(real, "c")
+	case "chain":
+		if num(gspec, "n") > 0 {
+			real = append(real, "v0")
+		}
+	case "bip":
+		for i := 0; i < num(gspec, "n"); i++ {
+			real = append(real, "a"+strconv.Itoa(i))
+		}
+	}
+	if len(real) == 0 {
+		real = append(real, "nobody") // V() with an empty id list would scan everything
+	}
+	first := map[string]interface{}{}
+	for k, v := range st {
+		first[k] = v
+	}
+	first["ids"] = real
+	return append([]interface{}{first}, prog[1:]...)
+}
+
 func (h *handler) warm() {
 	// one traversal with a temporary store, so that lazily started runtime / Badger helpers exist
 	// before the first baseline is taken
@@ -448,6 +483,7 @@ func (h *handler) Handle(req map[string]interface{}) interface{} {
 	}
 	resp["build_ms"] = time.Since(t0).Milliseconds()
 	prog, _ := req["prog"].([]interface{})
+	prog = expandIDs(gspec, prog)
 	q, err := qry.Parse(GraphName(gspec), prog)
 	if err != nil {
 		resp["wire_err"] = err.Error()
